@@ -136,7 +136,7 @@ Unparseable(p) == \/ p.shape \in {"opt", "frag", "frag2", "trunc", "badoff"}
                   \/ (p.shape = "l4short" /\ Design = "strict")
 
 IdOK(seed, s, p) == p.fam = 6 \/ seed.df \/ p.ipid = seed.ipid + Len(s.ids)
-HdrMatch(a, p, bug) == (bug = "notos" \/ a.tos = p.tos) /\ a.df = p.df /\ a.hv = p.hv
+HdrMatch(a, p, bug) == (bug = "notos" \/ a.tos = p.tos) /\ (p.fam = 6 \/ a.df = p.df) /\ a.hv = p.hv
 
 Seed(st, p) ==
     IF HL(p) + p.len > MaxBytes THEN AddVerb(st, p)
@@ -227,7 +227,7 @@ KernelSeg(b, w) ==
                                /\ p.shape \in {"plain", "trail"}
                                /\ p.proto = seed.proto /\ p.flow = seed.flow
                                /\ p.proto = "tcp" => (p.seq = seed.seq + from /\ p.flags = fl)
-                               /\ p.tos = seed.tos /\ p.hv = seed.hv /\ p.df = seed.df
+                               /\ p.tos = seed.tos /\ p.hv = seed.hv /\ (p.fam = 6 \/ p.df = seed.df)
                                /\ (p.fam = 6 \/ p.df \/ p.ipid = seed.ipid + j - 1)]])
 ObsOf(b, ws) == Tup([k \in 1..Len(ws) |->
                    LET w == ws[k] IN
